@@ -283,6 +283,12 @@ func Generate(seed uint64, prop, tier string) *Plan {
 		case x == 4 && closeHeavy:
 			cp.Peer = append(cp.Peer, PeerOp{K: "abort"})
 		}
+		if closeHeavy && r.Chance(1, 5) || r.Chance(1, 20) {
+			cp.CloseW = []WOp{{M: []string{"write", "write", "writev", "asyncwrite"}[r.Intn(4)], N: r.Pick(1, 100, 5000), Segs: []int{r.Pick(1, 100), r.Pick(0, 300)}}}
+		}
+		if closeHeavy && r.Chance(1, 8) {
+			cp.CloseAgain = r.Range(1, 2)
+		}
 		// handler script
 		nt := r.Range(0, 6)
 		for j := 0; j < nt; j++ {
